@@ -363,6 +363,38 @@ pub fn run(tier: &str) -> i32 {
                     }
                 }
             }
+            // a Finish request made too early (part of the stream still to come), answered Buf, and
+            // repeated with the rest: whatever the wrapper makes of the retry, it may not report a
+            // checksum error for the correct trailer nor the end of the stream for a wrong one
+            if !big && d.len() == n {
+                for cut in [n / 2, n - 5, n - 2] {
+                    if cut < 3 {
+                        continue;
+                    }
+                    acc.0 += 1;
+                    let r = guarded(|| {
+                        let mut st = miniz_oxide::inflate::stream::InflateState::new_boxed(DataFormat::Zlib);
+                        let mut buf = vec![0u8; *olen + 64];
+                        let r1 = miniz_oxide::inflate::stream::inflate(&mut st, &d[..1], &mut buf, MZFlush::None);
+                        let mut ip = r1.bytes_consumed;
+                        let r2 = miniz_oxide::inflate::stream::inflate(&mut st, &d[ip..cut], &mut buf, MZFlush::Finish);
+                        ip += r2.bytes_consumed;
+                        let r3 = miniz_oxide::inflate::stream::inflate(&mut st, &d[ip..], &mut buf, MZFlush::Finish);
+                        (mzres_code(&r2.status), mzres_code(&r3.status))
+                    });
+                    let rp = json!({"kind": "trailer-early-finish", "stream_hex": hex(d), "desc": s.desc, "good": good, "cut": cut});
+                    match r {
+                        Err(p) => rep.violation("C09/trailer/panic", format!("panic {}", p), rp),
+                        Ok((c2, c3)) => {
+                            if *good && (c2 == -3 || c3 == -3) {
+                                rep.violation("C09/inflate/early-finish/correct-trailer-data-error", format!("inflate(): early Finish at {} answered {}, the retry {}: a checksum error for a correct trailer [{}]", cut, c2, c3, s.desc), rp);
+                            } else if !*good && (c2 == 1 || c3 == 1) {
+                                rep.violation("C09/inflate/early-finish/wrong-trailer-accepted", format!("inflate(): early Finish at {} answered {}, the retry {}: StreamEnd for a wrong trailer [{}]", cut, c2, c3, s.desc), rp);
+                            }
+                        }
+                    }
+                }
+            }
             // streaming wrapper: MZError::Data / StreamEnd, and ZLibIgnoreChecksum
             for (chunk, room) in [(usize::MAX, usize::MAX), (1usize, 7usize)] {
                 if big && chunk == 1 {
